@@ -22,11 +22,12 @@ def run(ck):
     if q.verdict != 'unsat':
         ck.inconclusive.append(f'compositional premise of C17 no longer holds (trait methods: {methods}, generic signature found: {generic_ok}); only the direct harnesses apply')
     hs = [H('c17_push_sequences', cap=1800, playback=True, meaning='for every sequence of <= 4 arbitrary pushes and every buffer length 0..6 (stale sentinel): count = k, data = first min(n,k) entries in order, exhaustive <=> n >= k, slots beyond untouched, unique/earliest/latest equal those of the allocating list when exhaustive'),
-          H('c17_vec_equals_buffer_n1', cap=2400, required=not quick, meaning='direct: DateTime::find (Vec) vs DateTime::find_n on the same symbolic zone (<=1 transition, rule none/Fixed): entry-wise equal, unique/earliest/latest equal')]
+          ]
     if not quick:
+        hs.append(H('c17_vec_equals_buffer_n1', cap=7200, meaning='direct: DateTime::find (Vec) vs DateTime::find_n on the same symbolic zone (<=1 transition, rule none/Fixed): entry-wise equal, unique/earliest/latest equal'))
         hs.append(H('c17_buffer_n1', cap=7200, meaning='direct: find_n into a buffer of symbolic length vs an exhaustive buffer, <= 1 transition'))
         hs.append(H('c17_buffer_n2_rule', cap=7200, required=False, meaning='<= 2 transitions + Fixed rule'))
-    kprop.run_harnesses(ck, hs, on_fail=lambda B, h: on_fail(ck, B, h))
+    kprop.run_harnesses(ck, hs, on_fail=lambda B, h: (kprop.playback_violation(ck, B, h) if h.playback_ok else on_fail(ck, B, h)))
     ck.functions += ['DateTime::find_n', 'DateTime::find', 'FoundDateTimeListRefMut::*', 'FoundDateTimeList::*', 'datetime::find::find_date_time', 'DateTimeList::push (both impls)']
     ck.explanation = 'Both instantiations of the generic search run on the same symbolic zone and civil time; CBMC compares the results for every buffer length.'
 
